@@ -911,7 +911,8 @@ impl<'a> Gen<'a> {
     /// What happened at (or right in front of) rendered line `line`; may move a removal behind the
     /// last content line. `taken` are edits whose old text must not be reused.
     fn random_edit(&mut self, r: &RenderedFile, line: usize, taken: &[&LineEdit]) -> (usize, LineEdit) {
-        let mut old = format!("gone{}", self.rng.below(1000));
+        // (now and then the old line was an empty list item: its diff line reads `-- `)
+        let mut old = if self.rng.chance(1, 6) { "- ".to_string() } else { format!("gone{}", self.rng.below(1000)) };
         let used = |o: &str| {
             r.lines.iter().any(|l| l == o)
                 || taken.iter().any(|t| matches!(t, LineEdit::Replaced { old } | LineEdit::Removed { old } if old == o))
